@@ -96,7 +96,7 @@ class C04(Check):
         "instants oracle on the simulator's own timeline.",
         design_ref="DESIGN.md §5 C04",
         note="trusted: Lean kernel, axioms {propext, Classical.choice, Quot.sound}; the correspondence harness; times are integer seconds "
-        "(the code computes in floats on integral values); the hydraulic solve is irrelevant to this property and is not modelled",
+        "(the code computes in floats on integral values); the hydraulic solve is irrelevant to this property and is not modelled Controls configured as INP TEXT (AT TIME / AT CLOCKTIME in every documented spelling: decimal hours, h:mm, h:mm:ss, 24-hour without marker, AM / PM, the noon and midnight hours) are read by the real INP reader and must act at the instant an independent reading of the text names (simulation oracle, keys inp-control-text-*).",
         technique="Lean 4 proof over hand-written scheduler/time-condition model + differential run against WNTRSimulator + instants oracle",
     )
     rule = (
